@@ -155,7 +155,12 @@ def run(res, tier, seed):
             sc = float(rng.choice([1.0, 0.5, 0.25, 2.0, 1.5]))
             rescale = [sc, sc]
             offset = [float(rng.choice([6, 6.5, 10])), float(rng.choice([6, 7.5, 12]))]
-            size = int(100 * sc + 40)
+            # the image covers the rescaled tissue (Moebius images can leave the unit box) plus the widest band
+            ext = max(max(abs(x), abs(y)) for _, x, y in spec["vertices"])
+            low = min(min(x, y) for _, x, y in spec["vertices"]) * sc + min(offset)
+            if low < 6:
+                offset = [o + math.ceil(6 - low) for o in offset]
+            size = int(max(100.0, ext) * sc + max(offset) + 40)
             arr = rng.integers(1, 200, size=(size, size)).astype(float)
             check_case(res, fr, arr, mode, layers, integrate, normalize, rescale, offset, bool(rng.integers(0, 2)), exprs, label, spec)
     bools, outs = C.coq_eval_bools("C17", IMPORTS, [e for e, _ in exprs], chunk=10)
@@ -174,7 +179,8 @@ def search(res, tier, seed, broken):
         fr = impl.frame(spec)
         for layers, integrate in ((1, True), (2, False), (0, True)):
             sc = float(rng.choice([1.0, 0.25, 2.0]))
-            arr = rng.integers(1, 200, size=(int(100 * sc + 40),) * 2).astype(float)
+            ext = max(max(abs(x), abs(y)) for _, x, y in spec["vertices"])
+            arr = rng.integers(1, 200, size=(int(max(100.0, ext) * sc + 50),) * 2).astype(float)
             check_case(r2, fr, arr, "F", layers, integrate, None, [sc, sc], [8.0, 8.5], False, sink, label, spec)
         if [f for f in r2.failures if f["kind"] == "oracle"] or r2.evaluations > 40:
             break
